@@ -44,7 +44,8 @@ BUDGET = {
 }
 SMALL = ["small_ragged", "small_repeats", "small_alphabet1", "small_tie_costs", "small_hyp_longer",
          "small_unequal_costs"]
-OC_CLASSES = [c for c in G.CLASSES if c != "nondyadic"] + SMALL + ["mismatch", "small_mismatch", "multi_repeat"]
+OC_CLASSES = [c for c in G.CLASSES if c != "nondyadic"] + SMALL + ["mismatch", "small_mismatch", "multi_repeat",
+                                                                     "cheap_sub_ragged"]
 LOSS_CLASSES = ["ocd_uniform", "ocd_ragged", "ocd_repeats", "ocd_hyp_longer", "ocd_alphabet1", "ocd_spread",
                 "ocd_mismatch"]
 CLASSES = OC_CLASSES + LOSS_CLASSES + ["zero_dim_eos"]
@@ -120,6 +121,30 @@ def generate(rng, tier, i):
         if rng.random() < 0.7:
             a, b = rng.choice([0.5, 1.0, 1.5]), rng.choice([0.5, 1.0, 1.5])
             case["costs"] = rng.choice([[a, a, a], [a, b, a], [a, b, a]])  # sub == ins: row ties
+    elif cls == "cheap_sub_ragged":
+        # a substitution cheaper than an insertion, references of very different lengths in one batch (what lies
+        # past a short reference's end in the padded tensor must never become a row minimum), hypotheses at least
+        # as long as the short reference
+        case = G.gen_string_case(rng, tier, G.CLASSES.index("ragged"), max_len=5)
+        case["class"] = cls
+        eos = case["eos"] = 0
+        N = max(2, len(case["ref"]))
+        R, H = rng.randint(3, 5), rng.randint(3, 5)
+        case["R"], case["H"] = R, H
+        refs, hyps = [], []
+        for n in range(N):
+            L = rng.choice([1, 1, 2]) if n % 2 == 0 else rng.randint(2, R)
+            ref = [rng.choice([1, 2]) for _ in range(L)]
+            if L < R:
+                ref += [eos] + [rng.choice([eos, 1, 2]) for _ in range(R - L - 1)]
+            refs.append(ref)
+            Lh = rng.randint(2, H)
+            hyp = [rng.choice([1, 2, 2]) for _ in range(Lh)]
+            if Lh < H:
+                hyp += [eos] + [rng.choice([eos, 1, 2]) for _ in range(H - Lh - 1)]
+            hyps.append(hyp)
+        case["ref"], case["hyp"] = refs, hyps
+        case["costs"] = rng.choice([[2.0, 1.0, 1.0], [1.5, 1.0, 0.5], [3.0, 0.5, 1.0], [2.0, 2.0, 1.0], [1.0, 1.0, 0.5]])
     elif cls == "multi_repeat":
         # a token at >= 3 reference positions, two letters only: some occurrences are optimal next
         # tokens while an occurrence in between is not (duplicate handling of the target list)
